@@ -83,6 +83,8 @@ class CanonText(str):
 def norm(node: ast.AST) -> str:
     """Normalised text of a node: formatting / comments / positions do not matter, and (the trees being canonical)
     neither does the spelling of what canon.py normalises."""
+    if node is None:
+        return CanonText("<absent>")  # e.g. the value of a store that has none (loop target, annotation): equal to no source text
     try:
         return CanonText(ast.unparse(node))
     except Exception:  # pragma: no cover
